@@ -39,12 +39,20 @@ class PGen:
     def block(self, depth, key, allow_user=True):
         d = self.d
         out = []
-        for s in range(d.randint(1, 3, key, "n")):
+        n = d.randint(1, 3, key, "n")
+        # control structures meet at their edges (a loop that ends a then-branch, an if that ends a loop body, a
+        # subflow call that ends an else-branch): compiled jump offsets of neighbouring constructs interact exactly
+        # there, so a share of the blocks is forced to end (or begin) with a compound statement
+        edge = d.weighted([("none", 5), ("last", 3), ("first", 1)], key, "edge") if depth >= 1 else "none"
+        for s in range(n):
             kinds = [("bot", 4), ("set", 2)]
             if allow_user:
                 kinds.append(("user", 3))
-            if depth < 2:
-                kinds += [("if", 2), ("while", 1 if allow_user else 0), ("do", 1 if depth == 0 else 0), ("exec", 2)]
+            if depth < 3:
+                w = 2 if depth < 2 else 1
+                kinds += [("if", w), ("while", (1 if depth < 2 else 0.5) if allow_user else 0), ("do", 1 if depth <= 1 and len(self.subflows) < 3 else 0), ("exec", 2 if depth < 2 else 1)]
+            if depth < 3 and ((edge == "last" and s == n - 1) or (edge == "first" and s == 0)):
+                kinds = [x for x in kinds if x[0] in ("if", "while", "do")]
             k = d.weighted([x for x in kinds if x[1] > 0], key, s, "kind")
             if k == "bot":
                 out.append(self.bot())
@@ -61,7 +69,8 @@ class PGen:
             elif k == "while":
                 v = "n%d" % depth
                 out.append({"k": "set", "var": v, "val": 0})
-                out.append({"k": "while", "var": v, "limit": d.randint(1, 2, key, s, "lim"), "body": [self.user(), self.bot()] + ([{"k": "set", "var": "x0", "val": d.randint(0, 3, key, s, "wv")}] if d.chance(0.3, key, s, "ws") else [])})
+                out.append({"k": "while", "var": v, "limit": d.randint(1, 2, key, s, "lim"), "body": [self.user(), self.bot()] + ([{"k": "set", "var": "x0", "val": d.randint(0, 3, key, s, "wv")}] if d.chance(0.3, key, s, "ws") else [])
+                            + (self.block(depth + 1, (key, s, "wb"), False) if depth < 2 and d.chance(0.3, key, s, "wblk") else [])})
             elif k == "do":
                 name = "sub%d" % len(self.subflows)
                 self.subflows.append(None)
